@@ -1067,7 +1067,7 @@ func main() {
 
 	meta := gallina.NewMeta("C45", f.Seed, f.Tier)
 	meta.Rule = "fixed corpus histories + seeded random histories (3-7 scraped series with churn and scrape staleness markers, 1-3 groups of 1-4 recording rules with dependent/independent expressions, 6-22 time steps with evaluations in random group order, reloads adding/removing/reordering/duplicating/moving rules, group removals); a history is non-trivial if the implementation wrote at least one accepted staleness marker from a rule evaluation and at least one reload or removal happened; distinct by the printed operation list"
-	cf := &gallina.CaseFile{Dir: f.Out, Type: "case", PerShard: 60,
+	cf := &gallina.CaseFile{Dir: f.Out, Type: "case", PerShard: 45,
 		Preamble: "From Coq Require Import List ZArith Uint63.\nFrom Verif Require Import model.RuleGroup corr.CorrC45.\nImport ListNotations.\nOpen Scope uint63_scope.\n",
 		Footer:   gallina.StdFooter}
 
@@ -1181,7 +1181,7 @@ func main() {
 		runCase(id, ops, true)
 		id++
 	}
-	n := f.Count(110, 2500)
+	n := f.Count(84, 2500)
 	for i := 0; i < n; i++ {
 		runCase(id, genCase(gen.Fork(f.Seed, i), f.Tier), false)
 		id++
